@@ -22,15 +22,18 @@ theorem valid_of_core {a b : Token} (h : a.core = b.core) : a.valid C = b.valid 
 theorem ok_of_core {a b : Token} (h : a.core = b.core) : a.ok C g = b.ok C g := by
   have hv := valid_of_core C h
   simp only [Token.core, Prod.mk.injEq] at h
-  simp [Token.ok, Token.sized, h.1, h.2.1, hv]
+  simp [Token.ok, Token.vok, Token.sized, h.1, h.2.1, h.2.2, hv]
 
-theorem ok_mk {t : Token} (hs : t.sized g = true) (hv : t.valid C = true) : t.ok C g = true := by
+theorem ok_mk {t : Token} (hs : t.sized g = true) (hv : t.vok C = true) : t.ok C g = true := by
   simp [Token.ok, hs, hv]
 
 theorem ok_sized {t : Token} (h : t.ok C g = true) : t.sized g = true := by
   simp only [Token.ok, Bool.and_eq_true] at h; exact h.1
 
 theorem ok_valid {t : Token} (h : t.ok C g = true) : t.valid C = true := by
+  simp only [Token.ok, Token.vok, Bool.and_eq_true] at h; exact h.2.2
+
+theorem ok_vok {t : Token} (h : t.ok C g = true) : t.vok C = true := by
   simp only [Token.ok, Bool.and_eq_true] at h; exact h.2
 
 theorem prev_of_core {a b : Token} (h : a.core = b.core) : a.prev = b.prev := by
@@ -661,8 +664,8 @@ variable (C g)
 /-- a root path: every token on it is signed by the tree key, consecutive tokens are linked through `elements`,
     the last one hangs off genesis -/
 inductive Path (els : List Token) : Token → List Token → Prop
-  | root (t : Token) : t.valid C = true → t.prev = g → Path els t [t]
-  | step (t p : Token) (rest : List Token) : t.valid C = true → p ∈ els → p.id C = t.prev →
+  | root (t : Token) : t.vok C = true → t.prev = g → Path els t [t]
+  | step (t p : Token) (rest : List Token) : t.vok C = true → p ∈ els → p.id C = t.prev →
       Path els p rest → Path els t (t :: rest)
 
 variable {C g}
@@ -675,8 +678,8 @@ theorem walk_sound (els : List Token) : ∀ (n : Nat) (t : Token) (path : List T
     split at h
     · cases h
     · rename_i hv
-      have hv' : t.valid C = true := by
-        have : t.chash.length = g.length ∧ t.valid C = true := by simpa using hv
+      have hv' : t.vok C = true := by
+        have : t.chash.length = g.length ∧ t.vok C = true := by simpa using hv
         exact this.2
       split at h
       · rename_i hg
@@ -765,7 +768,7 @@ theorem walk_hanging {els : List Token} {n : Nat}
     (hA : ∀ e ∈ els, (walk C g els n e).isSome = true) {t : Token}
     (hok : t.ok C g = true) (hp : t.prev = g ∨ hasId C els t.prev = true) :
     (walk C g els (n + 1) t).isSome = true := by
-  have hv : t.valid C = true := ok_valid C g hok
+  have hv : t.vok C = true := ok_vok C g hok
   have hc : (t.chash.length == g.length) = true := by
     have := ok_sized C g hok
     simp only [Token.sized, Bool.and_eq_true] at this; exact this.2
